@@ -3,6 +3,7 @@ C16 — Path() is a working address of the node.
 -/
 import Ajson.Model.Read
 import Ajson.Model.Path
+import Ajson.Proofs.QuoteRoundTrip
 
 namespace Ajson.Props.C16
 open Ajson Ajson.Heap
@@ -60,6 +61,61 @@ theorem escaped_bytes_read_back :
     (∀ n, n < 32 → unquoteBytes ([39] ++ escapePathKey [n.toUInt8] ++ [39]) 39 = some [n.toUInt8]) := by
   refine ⟨by decide +kernel, by decide +kernel, ?_⟩
   decide +kernel
+
+/-- the length of an escaped key is at most six times the key's -/
+theorem escape_length : ∀ k : Bytes, (escapePathKey k).length ≤ 6 * k.length
+  | [] => by simp [escapePathKey]
+  | c :: cs => by
+    have ih := escape_length cs
+    unfold escapePathKey
+    split
+    · simp only [List.length_cons]; omega
+    · split
+      · simp only [List.length_append, List.length_cons, List.length_nil]; omega
+      · simp only [List.length_cons]; omega
+
+/-- **Every ASCII key is a working address segment**: quotes, backslashes, brackets, dots, control characters, the empty
+key — whatever bytes below 0x80 a key consists of, the single-quoted name `Path()` writes for it is read back by the
+path scanner's unquoter as exactly that key. -/
+theorem unquoteLoop_escape_ascii : ∀ (k : Bytes) (f : Nat), (escapePathKey k).length ≤ f → (∀ c ∈ k, c.toNat < 128) →
+    unquoteLoop 39 f (escapePathKey k) = some k
+  | [], f, _, _ => by cases f <;> simp [escapePathKey, unquoteLoop]
+  | c :: cs, f, hf, hk => by
+    have hc : c.toNat < 128 := hk c (by simp)
+    have hcs : ∀ x ∈ cs, x.toNat < 128 := fun x hx => hk x (by simp [hx])
+    have hbo : (39 : UInt8) = 34 ∨ (39 : UInt8) = 39 := Or.inr rfl
+    unfold escapePathKey at hf ⊢
+    by_cases h1 : (c == 92 || c == 39) = true
+    · simp only [h1, if_true, List.length_cons] at hf ⊢
+      obtain ⟨f', rfl⟩ : ∃ f', f = f' + 1 := ⟨f - 1, by omega⟩
+      have : c = 39 ∨ c = 92 ∨ c = 47 ∨ c = 39 := by
+        simp only [Bool.or_eq_true, beq_iff_eq] at h1; rcases h1 with h | h <;> simp [h]
+      rw [unq_esc_lit 39 c f' _ this, unquoteLoop_escape_ascii cs f' (by omega) hcs]
+      rfl
+    · simp only [h1, Bool.false_eq_true, if_false] at hf ⊢
+      simp only [Bool.or_eq_true, beq_iff_eq, not_or] at h1
+      by_cases h2 : c.toNat < 32
+      · simp only [h2, if_true, List.cons_append, List.nil_append, List.length_cons] at hf ⊢
+        obtain ⟨f', rfl⟩ : ∃ f', f = f' + 1 := ⟨f - 1, by omega⟩
+        have := unq_u00 39 c f' (escapePathKey cs) hc hbo
+        simp only [hexDigit] at this
+        rw [this, unquoteLoop_escape_ascii cs f' (by omega) hcs]
+        rfl
+      · simp only [h2, if_false, List.length_cons] at hf ⊢
+        obtain ⟨f', rfl⟩ : ∃ f', f = f' + 1 := ⟨f - 1, by omega⟩
+        rw [unq_ascii 39 c f' _ (by omega) hc h1.1 h1.2, unquoteLoop_escape_ascii cs f' (by omega) hcs]
+        rfl
+
+theorem C16_ascii_key_roundtrip_partial (k : Bytes) (hk : ∀ c ∈ k, c.toNat < 128) :
+    unquoteBytes ([39] ++ escapePathKey k ++ [39]) 39 = some k := by
+  unfold unquoteBytes
+  have hlen : ¬ ([39] ++ escapePathKey k ++ [39]).length < 2 := by simp
+  have hhead : ([39] ++ escapePathKey k ++ [39]).head? = some 39 := by simp
+  have hlast : ([39] ++ escapePathKey k ++ [39]).getLast? = some 39 := by rw [List.getLast?_append]; simp
+  simp only [hlen, hhead, hlast, if_false, bne_self_eq_false, Bool.or_self]
+  have hbody : (List.drop 1 ([39] ++ escapePathKey k ++ [39])).take (([39] ++ escapePathKey k ++ [39]).length - 2) = escapePathKey k := by simp
+  rw [hbody]
+  exact unquoteLoop_escape_ascii k _ (Nat.le_refl _) hk
 
 /-- the path of a root is `$`; a child's path is its parent's path plus one bracket segment chosen by the PARENT's type -/
 theorem pathOf_root (fuel : Nat) (h : Heap) (n : Id) (hp : (h.get n).parent = none) : h.pathOf (fuel + 1) n = [36] := by
